@@ -290,6 +290,7 @@ namespace hv
         if (n == "max") return fn<VMax2>();
         if (n == "xor") return fn<VXor2>();
         if (n == "mark") return fn<VMark2>();
+        if (n == "ord") return fn<VOrd2>();
         if (n == "add") return fn<stdlib::add_>();
         if (n == "mergedd") return fn<VMergeDD>();
         throw std::runtime_error("unknown wired fn " + spec);
@@ -350,6 +351,7 @@ namespace hv
             if (s.op == "add2") { put(s.dst, wire<VAdd2>(w, pi(a.at(0)), pi(a.at(1)), uid)); return; }
             if (s.op == "add3") { put(s.dst, wire<VAdd3>(w, pi(a.at(0)), pi(a.at(1)), pi(a.at(2)), uid)); return; }
             if (s.op == "sum2") { put(s.dst, wire<VSum2>(w, pi(a.at(0)), pi(a.at(1)))); return; }
+            if (s.op == "ord2") { put(s.dst, wire<VOrd2>(w, pi(a.at(0)), pi(a.at(1)))); return; }
             if (s.op == "max2") { put(s.dst, wire<VMax2>(w, pi(a.at(0)), pi(a.at(1)))); return; }
             if (s.op == "gs") { put(s.dst, wire<VGs>(w, pi(a.at(0)), uid)); return; }
             if (s.op == "acc") { put(s.dst, wire<VAcc>(w, pi(a.at(0)), uid)); return; }
